@@ -32,7 +32,7 @@ WATCHDOG = 20.0       # seconds a thread waits for the baton before the schedule
 OPS = ["acquire", "release", "ev_set", "ev_clear", "ev_is_set", "ev_wait", "halting_read",
        "halting_write", "threads_get0", "threads_append", "threads_remove", "threads_contains",
        "open", "write", "stop_stream", "start_stream", "close_stream", "terminate", "streams_read",
-       "start", "join", "is_alive"]
+       "start", "join", "is_alive", "src_next"]
 OPCODE = dict((n, i) for i, n in enumerate(OPS))
 
 
@@ -476,6 +476,43 @@ def decode(b, dfmt):
   return [int(v) for v in vals]
 
 
+class SchedSource(object):
+  """Instrumented audio source: every next() (also the one raising StopIteration) is a yield point, so a
+  player can be pre-empted in the middle of filling a chunk."""
+  def __init__(self, samples):
+    self._it = iter(list(samples))
+    self._env = env()
+
+  def __iter__(self):
+    return self
+
+  def __next__(self):
+    return self._env.sched.op("src_next", lambda: next(self._it))
+  next = __next__
+
+
+def make_audio(kind, data):
+  """The same samples as different argument kinds (all consumed one item at a time)."""
+  if kind == "tuple":
+    return tuple(data)
+  if kind == "gen":
+    return (v for v in data)
+  if kind == "iter":
+    return iter(data)
+  if kind == "stream":
+    from audiolazy import Stream
+    return Stream(data)
+  if kind == "src":
+    return SchedSource(data)
+  if kind == "src_stream":
+    from audiolazy import Stream
+    return Stream(SchedSource(data))
+  if kind == "src_gen":
+    src = SchedSource(data)
+    return (v for v in src)
+  return list(data)
+
+
 class PlayerBoom(Exception):
   """What the audio iterable of a "playbad" command raises inside the player thread."""
 
@@ -492,7 +529,7 @@ def _quiet_excepthook(args, _orig=_th.excepthook):
   _orig(args)
 
 
-def run_schedule(wait, script, choose, dfmt="f", max_steps=4000):
+def run_schedule(wait, script, choose, dfmt="f", max_steps=4000, strategy="struct", close_via="close"):
   """Runs the control script [["play", chunk_size, channels, [samples], dfmt?], ["playbad", chunk_size,
   channels, [samples], k] (the iterable raises after k whole chunks), ["pause", t], ["resume", t],
   ["stop", t], ["close"]] on a fresh AudioIO(wait) under the scheduler; `choose` picks the thread at
@@ -525,7 +562,9 @@ def run_schedule(wait, script, choose, dfmt="f", max_steps=4000):
                  "tlock": bool(lk._locked) if lk is not None else False,
                  "open": bool(st.open) if st is not None else False,
                  "written": [decode(b, p.dfmt) for b, _ in st.written] if st is not None else [],
-                 "nframes": [n for _, n in st.written] if st is not None else []})
+                 "nframes": [n for _, n in st.written] if st is not None else [],
+                 "nbytes": [len(b) for b, _ in st.written] if st is not None else [],
+                 "open_kw": dict((k2, v2) for k2, v2 in sorted(st.kw.items())) if st is not None else {}})
     pend = [-1 if (c.done or c.pending is None) else OPCODE[c.pending[0]] for c in sched.ctls]
     return {"players": pl, "finished": bool(aio.finished), "hlock": bool(aio.halting._locked),
             "mlock": bool(aio.lock._locked),
@@ -540,12 +579,25 @@ def run_schedule(wait, script, choose, dfmt="f", max_steps=4000):
     for cmd in script:
       k = cmd[0]
       if k in ("play", "playbad"):
+        # ["play", chunk_size, channels, samples, dfmt, kind, how]: kind = argument kind of the audio
+        # ("src*" = instrumented source), how = "kw" / "nchannels" (deprecated keyword) / "rate" / "omit"
         fmt = cmd[4] if (k == "play" and len(cmd) > 4) else dfmt
+        kind = cmd[5] if (k == "play" and len(cmd) > 5) else "list"
+        how = cmd[6] if (k == "play" and len(cmd) > 6) else "kw"
         data = [float(v) for v in cmd[3]] if fmt in "fd" else list(cmd[3])
         if k == "playbad":
           data = _raising(data[:cmd[4] * cmd[1] * cmd[2]])
+        else:
+          data = make_audio(kind, data)
         try:
-          aio.play(data, chunk_size=cmd[1], channels=cmd[2], dfmt=fmt)
+          if how == "nchannels":
+            aio.play(data, chunk_size=cmd[1], nchannels=cmd[2], dfmt=fmt)
+          elif how == "rate":
+            aio.play(data, chunk_size=cmd[1], channels=cmd[2], dfmt=fmt, rate=8000)
+          elif how == "omit" and cmd[2] == 1 and fmt == "f":
+            aio.play(data, chunk_size=cmd[1])               # defaults left out instead of given explicitly
+          else:
+            aio.play(data, chunk_size=cmd[1], channels=cmd[2], dfmt=fmt)
         except _th.ThreadError:
           e.events.append(["play_raise"])
       elif k in ("pause", "resume", "stop"):
@@ -554,11 +606,18 @@ def run_schedule(wait, script, choose, dfmt="f", max_steps=4000):
           {"pause": t.pause, "resume": t.play, "stop": t.stop}[k]()
       elif k == "close":
         try:
-          aio.close()
+          if close_via == "terminate":
+            aio.terminate()
+          elif close_via == "exit":
+            aio.__exit__(None, None, None)
+          else:
+            aio.close()
           e.events.append(["close_ret", flags()])
         except AssertionError:
           e.events.append(["assert_fail"])
 
+  saved_default = lazy_io.chunks.default
+  lazy_io.chunks.default = lazy_io.chunks[strategy]       # the documented way to pick the playing blockenizer
   sched.active = True
   status_extra = None
   try:
@@ -571,6 +630,7 @@ def run_schedule(wait, script, choose, dfmt="f", max_steps=4000):
       sched._end("exception")
     sched.main_finished()
   finally:
+    lazy_io.chunks.default = saved_default
     sched.active = False
     sched.aborting = True
     for c in sched.ctls:
